@@ -2,7 +2,7 @@
 # usage: tools/why_seed.sh <seed id> <rules,comma> : prints the failing obligations (with detail) of the rules on the seeded tree
 S=/verif/seeded/$1; T=/verif/.cache/why-$$; rm -rf $T; mkdir -p $T/src/diagonal.works
 export GOFLAGS=-mod=mod GOPROXY=off GOSUMDB=off GOTOOLCHAIN=local
-rsync -a --include='*/' --include='*.go' --include='go.mod' --include='go.sum' --exclude='*' --prune-empty-dirs /repo/src/diagonal.works/b6 $T/src/diagonal.works/; find $T -name '*_test.go' -delete
+rsync -a --include='*/' --include='*.go' --include='*.y' --include='go.mod' --include='go.sum' --exclude='*' --prune-empty-dirs /repo/src/diagonal.works/b6 $T/src/diagonal.works/; find $T -name '*_test.go' -delete
 (cd $T && patch -p1 -s -f --no-backup-if-mismatch < $S/patch.diff) || echo "patch does not apply"
 /verif/bin/b6lint run -root $T/src/diagonal.works/b6 -brief -rules "$2" | grep -v "^RULE\|^packages" | cut -c1-${3:-900}
 rm -rf $T
